@@ -814,6 +814,9 @@ def run(chk, P):
     chk.floor('R13.9', 1)
     r13_10(chk, P, K)
     chk.floor('R13.10', 2)
+    import typestate
+    typestate.c13(chk, P)
+    chk.floor('R13.11', 2)
     chk.rule('R13.7', 'the close callback has exactly one call site, in ov_clear, guarded by a non-null data source, and failed '
              'opens detach the source first (same obligations as R12.3); ov_clear wipes the handle (R13.3a), so a second '
              'ov_clear sees no data source')
